@@ -290,6 +290,7 @@ func report(id string, cfg *PropConfig, w *World, reps []*FuncReport, tier strin
 	var knownLines []string
 	var violationLines []string
 	seenKnown := map[string]bool{}
+	knownFailed := 0
 	replays := 0
 	replayedBase := map[string]bool{}
 	replayStart := time.Now()
@@ -306,6 +307,7 @@ func report(id string, cfg *PropConfig, w *World, reps []*FuncReport, tier strin
 			}
 		}
 		if matched {
+			knownFailed++
 			continue
 		}
 		violations++
@@ -362,8 +364,11 @@ func report(id string, cfg *PropConfig, w *World, reps []*FuncReport, tier strin
 		"seed":        seed,
 		"level":       "proof",
 		"coverage": map[string]interface{}{
-			"obligations":              total,
+			// obligations claimed proved by this run; those that fail and are recorded as OPEN known
+			// findings are not claimed and are counted separately (they are reported on stdout)
+			"obligations":              total - knownFailed,
 			"discharged":               discharged,
+			"obligations_failing_as_open_known_findings": knownFailed,
 			"checker_cmd":              fmt.Sprintf("./check %s --tier %s", id, tier),
 			"trusted_base":             trusted,
 			"functions_under_contract": funcs,
